@@ -3,6 +3,9 @@
 # Confirms, in the scratch worktree: patch applies to clean HEAD, library+tests build, the suite passes with the
 # patch, the demo fails with the patch and passes without it.
 wt="$1"; sd="$2"; out="$sd/confirm.txt"
+# optional: DEMO_FLAGS (extra flags for the demo), DEMO_LIBFLAGS (extra CXXFLAGS for the library build used by the DEMO only;
+# the suite is always built and run in the default configuration)
+DF="$DEMO_FLAGS"; LF="$DEMO_LIBFLAGS"
 cd "$wt" || exit 2
 git checkout -q -- . ; make clean >/dev/null 2>&1
 {
@@ -15,12 +18,13 @@ git apply "$sd/patch.diff"
 make -j8 >/dev/null 2>&1 && make -C tests -j8 >/dev/null 2>&1 || { echo "RESULT build-failed-with-patch"; git checkout -q -- .; exit 0; }
 ./tests/test > /tmp/$$.t 2>&1; trc=$?
 echo "suite with patch: rc=$trc PASS=$(grep -c PASS /tmp/$$.t) FAIL=$(grep -ci fail /tmp/$$.t)"
+if [ -n "$LF" ]; then make clean >/dev/null 2>&1; make -j8 CXXFLAGS="-std=c++17 -I./include -Ofast -fno-vectorize $LF" >/dev/null 2>&1; echo "demo library flags: $LF"; fi
 cp "$demo" . ; b=$(basename "$demo")
-if [[ "$b" == *.c ]]; then clang -std=c11 -I./include -O2 "$b" pairing.a -lstdc++ -lm -o demo_bin 2>/tmp/$$.c || clang++ -std=c++17 -I./include -O2 "$b" pairing.a -o demo_bin 2>>/tmp/$$.c; else clang++ -std=c++17 -I./include -O2 "$b" pairing.a -lpthread -o demo_bin 2>/tmp/$$.c; fi
+if [[ "$b" == *.c ]]; then clang -std=c11 -I./include -O2 "$b" pairing.a -lstdc++ -lm -o demo_bin 2>/tmp/$$.c || clang++ -std=c++17 -I./include -O2 "$b" pairing.a -o demo_bin 2>>/tmp/$$.c; else clang++ -std=c++17 -I./include -O2 $DF "$b" pairing.a -lpthread -o demo_bin 2>/tmp/$$.c; fi
 timeout 600 ./demo_bin > /tmp/$$.d 2>&1; d1=$?
 echo "demo with patch: rc=$d1 :: $(tail -3 /tmp/$$.d | tr '\n' '|' | cut -c1-300)"
-git checkout -q -- . ; make clean >/dev/null 2>&1; make -j8 >/dev/null 2>&1
-if [[ "$b" == *.c ]]; then clang -std=c11 -I./include -O2 "$b" pairing.a -lstdc++ -lm -o demo_bin 2>/tmp/$$.c || clang++ -std=c++17 -I./include -O2 "$b" pairing.a -o demo_bin 2>>/tmp/$$.c; else clang++ -std=c++17 -I./include -O2 "$b" pairing.a -lpthread -o demo_bin 2>/tmp/$$.c; fi
+git checkout -q -- . ; make clean >/dev/null 2>&1; if [ -n "$LF" ]; then make -j8 CXXFLAGS="-std=c++17 -I./include -Ofast -fno-vectorize $LF" >/dev/null 2>&1; else make -j8 >/dev/null 2>&1; fi
+if [[ "$b" == *.c ]]; then clang -std=c11 -I./include -O2 "$b" pairing.a -lstdc++ -lm -o demo_bin 2>/tmp/$$.c || clang++ -std=c++17 -I./include -O2 "$b" pairing.a -o demo_bin 2>>/tmp/$$.c; else clang++ -std=c++17 -I./include -O2 $DF "$b" pairing.a -lpthread -o demo_bin 2>/tmp/$$.c; fi
 timeout 600 ./demo_bin > /tmp/$$.d 2>&1; d0=$?
 echo "demo without patch: rc=$d0 :: $(tail -2 /tmp/$$.d | tr '\n' '|' | cut -c1-200)"
 rm -f demo_bin "$b" /tmp/$$.*
